@@ -69,6 +69,7 @@ type TxPlan struct {
 	Bytes        []byte
 	Tx           *rtypes.Trx // decoded form of Bytes (nil if undecodable)
 	Hash         []byte
+	Genuine      []byte // encoding of the tx as its sender signed it, when Bytes is an altered version
 	Garbage      bool // raw bytes, not a well-formed signed tx of ours
 	Tampered     bool // altered after signing in a way that changes a signed field / signer / chain
 	SigMalleated bool
@@ -461,6 +462,9 @@ func (w *World) materialise(it Intent, h int64, idx int, sc *blockScratch) *TxPl
 	}
 	w.signTx(tx, act, chain)
 	if it.Mut != nil {
+		if gb, xerr := tx.Encode(); xerr == nil && !it.WrongChain && !it.EmptyChain {
+			p.Genuine = gb
+		}
 		w.applyMutation(p, tx, it.Mut, act)
 	}
 	bz, xerr := tx.Encode()
@@ -621,7 +625,9 @@ func (w *World) applyMutation(p *TxPlan, tx *rtypes.Trx, mu *Mutation, act *Acto
 				}
 			}
 			h := append([]byte(nil), pl.TxHash...)
-			if other != nil {
+			if mu.How == "extend" {
+				h = append(h, 0xab, 0xcd) // the same stake for every lookup that reads the first 32 bytes
+			} else if other != nil {
 				h = other
 			} else if len(h) > 0 {
 				h[len(h)-1] ^= 1
@@ -649,7 +655,9 @@ func (w *World) applyMutation(p *TxPlan, tx *rtypes.Trx, mu *Mutation, act *Acto
 				pl.StartVotingHeight++
 			}
 		case *rtypes.TrxPayloadVoting:
-			if mu.How == "hash" {
+			if mu.How == "extend" {
+				pl.TxHash = append(append([]byte(nil), pl.TxHash...), 0xab, 0xcd, 0xef, 0x01)
+			} else if mu.How == "hash" {
 				h := append([]byte(nil), pl.TxHash...)
 				if len(h) > 0 {
 					h[0] ^= 1
